@@ -124,6 +124,14 @@ configured name and its `.new` / `.old` siblings, also when the name is a symbol
 theorem checkpoint_name_is_as_configured : ∀ s ∈ nameSites, s.2 = true := by decide
 
 open TTGen.C18_Callers in
+/-- **only_save_parameters_touches_checkpoint_files**: outside `save_parameters` no code of the library applies
+a file-system operation (remove, rename, replace, truncate, open for writing, …) to an expression computed from
+a checkpoint name, so the only transitions of the three files `name`, `name.new`, `name.old` during a run —
+including its start-up and shut-down — are those of the write program the crash-safety theorems quantify over
+(generated table `fsSites`, regenerated from every function under `torchtree/`). -/
+theorem only_save_parameters_touches_checkpoint_files : fsSites = [] := by decide
+
+open TTGen.C18_Callers in
 /-- non-vacuity: there are sites that store a checkpoint name -/
 example : nameSites ≠ [] := by decide
 
